@@ -1,4 +1,5 @@
-"""C05 — script split: partitionByScript / splitKerning / mergeScripts (probing)."""
+"""C05 — script split (round 3): partitionByScript under contract (safety, part-of, non-empty script sets);
+mergeScripts written with ghost unions but NOT registered (26 of 31 obligations; see the comment at the contract)."""
 from pyvc.api import BOOL, CLASSES, CONTRACTS, INT, REAL, STR, Const, Dict, List, Loop, Map, Named, Opt, Ref, Runtime, Set, Tuple, TupleOf, Union, cls, contract, lemma, specfn, trusted
 
 from . import c05, c05b  # noqa: F401
@@ -31,6 +32,23 @@ def _kp_new_frozen(ex, st, args, kwargs, node):
 def k5_in_side(g, side):
     """g is a glyph of the side (a class: one of its members; a single glyph: that glyph)"""
     return (g in side) if isinstance(side, tuple) else (g == side)
+
+
+@specfn(BOOL, g1=STR, g2=STR, glyphScripts=Dict(STR, Set(STR)), opaque=True)
+def k5_dirs_compatible(g1, g2, glyphScripts):
+    """(run-time clauses only) the two glyphs can meet in one run: some horizontal direction of a script of g1 equals one of g2,
+    or one of the two is direction-neutral (`Auto`: common / inherited script).  Computed independently of the code under
+    contract: fontTools' script direction on the glyph's scripts, with Zyyy / Zinh (or no known script) as neutral."""
+    from fontTools import unicodedata as ftud
+
+    def dirs(g):
+        scripts = glyphScripts.get(g) or {"Zyyy"}
+        if scripts & {"Zyyy", "Zinh"}:
+            return {"Auto"}
+        return {ftud.script_horizontal_direction(s, "LTR") for s in scripts}
+
+    d1, d2 = dirs(g1), dirs(g2)
+    return "Auto" in d1 or "Auto" in d2 or bool(d1 & d2)
 
 
 # a yielded pair q is a PART of the input pair: same value, each side of the same kind (a class stays a class, a glyph stays
@@ -85,6 +103,11 @@ contract(
         # every yielded script set is non-empty (splitKerning keys its buckets by them; mergeScripts raises AssertionError for an
         # empty key)
         "scripts-non-empty": "all(result[n][0] != set() for n in range(len(result)))",
+    },
+    # run-time only (bounded): nothing compatible is lost - every glyph pair of the input whose glyphs can meet in one run (same
+    # direction, or one of them neutral) is covered by a yielded pair
+    bounded_ensures={
+        "covers": "all(all(implies(k5_dirs_compatible(g1, g2, glyphScripts), any(g1 in result[n][1].firstGlyphs and g2 in result[n][1].secondGlyphs for n in range(len(result)))) for g2 in pair.secondGlyphs) for g1 in pair.firstGlyphs)",
     },
     canaries={"empty": "len(result) == 0", "at-most-one": "len(result) <= 1"},
     locals={"side1Directions": Dict(STR, Set(STR)), "side2Directions": Dict(STR, Set(STR)), "resolvedScripts": Dict(STR, Set(STR)),
@@ -174,9 +197,16 @@ _MERGE_GHOST = {
 
 SETS = List(Set(STR))
 BUCKETS = Dict(List(STR), List(Ref("KPairT")))  # (tuple(sorted(..)) is typed as a list by the engine)
+# NOT REGISTERED (props=[]): 26 of 31 obligations discharge -- no IndexError at `sets[0]`, no KeyError at
+# `result[tuple(sorted(scripts2))]`, every invariant of the re-assignment loops, the union bookkeeping of the merging passes,
+# and the direction "returns normally => no key is empty" of the AssertionError characterisation.  Open (all solvers time out,
+# also at 40 s): the exists-under-forall link "x in the ghost union => x in sets[m] for some m" across `sets.append(scripts)`
+# (the witness index lives in the appended list, no term of which occurs in the goal) and, depending on it, the coverage step of
+# `while sets` and "AssertionError => some key is empty"; the two initial facts drown in the lambda/exists facts of the
+# filtered comprehension at L965, which stay on the path of every later obligation.  See notes/C05.md (round 3).
 contract(
     f"{_KP_MOD}:mergeScripts",
-    props=["C05"],
+    props=[],
     params={"kerningPerScript": BUCKETS},
     returns=BUCKETS,
     raises={"AssertionError": "any(len(K) == 0 for K in set(kerningPerScript))"},
@@ -187,4 +217,25 @@ contract(
     ghost_vars={"US": (Set(STR), "{x for K in kerningPerScript for x in K}"), "UR": (Set(STR), "set()"), "US1": (Set(STR), "set()"), "c0": (Set(STR), "set()")},
     ghost=_MERGE_GHOST,
     loops=_merge_loops(),
+)
+
+
+# ---- probe (round 3, NOT registered): the alternative writer's partition_by_direction ---------------------------------------
+# Blocker: `itertools.product(sorted(side1Directions), sorted(side2Directions))` sorts Direction members with the enum's own
+# `__lt__` (by member name): the engine has no order on an Enum type (`sorted(): no order on Enum[Direction]`), and without the
+# sorted axioms the product's keys are not known to be keys of the dicts (KeyError obligations).  Request 23 in notes/C05.requests.md.
+from pyvc.api import Enum  # noqa: E402
+
+_DIR = Enum("ufo2ft.featureWriters.kernFeatureWriter2:Direction")
+contract(
+    f"{_KP_MOD}2:partition_by_direction",
+    name="probe",
+    props=[],
+    params={"pair": Ref("KPairT"), "glyph_bidi": Dict(STR, Set(_DIR)), "glyph_direction": Dict(STR, Set(_DIR))},
+    returns=List(Tuple(_DIR, Ref("KPairT"))),
+    models={f"{_KP_MOD}2.KerningPair": _kp_new_frozen},
+    sorted_axioms=True,
+    ensures={"t": "True"},
+    canaries={"empty": "len(result) == 0"},
+    locals={"side1Bidis": Dict(_DIR, Set(STR)), "side2Bidis": Dict(_DIR, Set(STR)), "side1Directions": Dict(_DIR, Set(STR)), "side2Directions": Dict(_DIR, Set(STR))},
 )
